@@ -255,7 +255,26 @@ def mon_c04(tr: Trace) -> list[Violation]:
         out.append(Violation("C04/two_terminal_events", f"{len(terms)} terminal events published: {[k for _, k in terms]}", _replay(tr)))
     i, k = terms[0]
     if i != len(tr.stream) - 1:
-        out.append(Violation("C04/published_after_terminal", f"{len(tr.stream) - 1 - i} event(s) published after the terminal {k} event", _replay(tr)))
+        # classifying fact: did the late publication happen while the run was still ending (before `await handler` returned),
+        # or only after the outcome was available -- i.e. by something that outlived the run
+        at_out = getattr(tr, "stream_len_at_outcome", None)
+        late_after = at_out is not None and len(tr.stream) > max(at_out, i + 1)
+        late_before = at_out is None or at_out > i + 1
+        sig = "C04/published_after_terminal"
+        if late_after and not late_before:
+            sig += f":after_outcome_available[{want}]"
+        who = sorted({o for (_e, _t, _c, o) in tr.stream[i + 1:]})
+        out.append(Violation(sig, f"{len(tr.stream) - 1 - i} event(s) published after the terminal {k} event (by: {', '.join(who)}; "
+                             f"stream had {at_out} item(s) when the outcome became available, {len(tr.stream)} in the end)", _replay(tr)))
+    alive = list(getattr(tr, "alive_at_outcome", []) or [])
+    if alive:
+        # no step task of the run is still alive once the run's outcome is available (observed on the step bodies themselves:
+        # entered and not yet left; sync steps run in executor threads and are not counted)
+        tds = {(t["step"], t["uid"], t["rn"]): t for t in getattr(tr, "teardowns", [])}
+        how = "unwinding_from_cancellation" if all(a in tds for a in alive) else "never_cancelled" if not any(a in tds for a in alive) else "mixed"
+        out.append(Violation(f"C04/step_task_alive_after_outcome[{want}]:{how}",
+                             f"the run's outcome ({kind}) is available and its terminal event published, but {len(alive)} step invocation(s) "
+                             f"are still running: {alive[:4]}", _replay(tr)))
     if k != want:
         out.append(Violation("C04/terminal_kind_mismatch", f"run outcome {kind} but terminal event kind {k}", _replay(tr)))
     if kind == "result":
